@@ -143,6 +143,9 @@ def _events(args):
         if not built:
             continue
         coll, R, L = built
+        if rnd.random() < 0.2:  # a collection whose members were already asked everything
+            for m in coll.iter_children():
+                E.warm(m)
         ids = {}
         cur = coll
         for depth in range(2):
